@@ -82,7 +82,7 @@ def small_float_word(rng):
     return struct.unpack("<I", struct.pack("<f", float(v)))[0]
 
 
-def gen_case(rng, i):
+def gen_case(rng, i=0):
     D = rng.choice([1, 2, 2, 3, 3, 4]) if rng.random() > 0.02 else 0
     ncomp = rng.choice([1, 1, 2, 3])
     comps = []
@@ -171,6 +171,26 @@ def gen_ops(rng, case):
 def case_edge(case):
     """a confidence TensorFlow's denormals-are-zero arithmetic reads as 0"""
     return "subnormal-confidence" if any(is_subnormal(w) for w in case["conf"]) else None
+
+
+def enum_cases(tier):
+    """small-scope enumerations (they validate the model against the code; the theorems do not rest on them):
+    every slice of a 3-frame body with bounds in -5..5 / None, every index list of length <= 2 over -3..3"""
+    def w(x):
+        return struct.unpack("<I", struct.pack("<f", float(x)))[0]
+    F, P, T, D = 3, 1, 2, 2
+    base = {"dims": [10, 10, 0], "comps": [{"name": "c", "format": "XYC", "points": ["a", "b"], "limbs": [], "colors": []}],
+            "fps": w(24.0), "shape": [F, P, T, D], "data": [w(i + 1) for i in range(F * P * T * D)],
+            "conf": [w(1.0), 0, w(-2.0), 0x7FC00000, 0x80000000, w(0.5)], "args": None, "exact": True}
+    rng_b = [None] + list(range(-5, 6)) if tier != "quick" else [None, -4, -1, 0, 1, 2, 4]
+    steps = [None, 1, 2, 3, -1, -2] if tier != "quick" else [None, 2, -1]
+    ops = [["getitem_slice", a, b, st] for a in rng_b for b in rng_b for st in steps]
+    yield dict(base, ops=ops, enum="slices")
+    r = list(range(-3, 4))
+    lists = [[]] + [[i] for i in r] + ([[i, j] for i in r for j in r] if tier != "quick" else [[i, -i] for i in r])
+    ops = [["get_points", l] for l in lists] + [["select_frames", l] for l in lists] + [["getitem_int", i] for i in range(-5, 6)] + \
+          [["slice_step", k] for k in range(-3, 6)]
+    yield dict(base, ops=ops, enum="indexes")
 
 
 def op_edge(case, op):
@@ -285,7 +305,9 @@ class C08(common.Prop):
             self.cfg = translate_c08.REPAIRED_CFG
 
     def gen_cases(self, rng, tier):
-        n = 260 if tier == "quick" else 5000
+        for c in enum_cases(tier):
+            yield c
+        n = 260 if tier == "quick" else 8000
         for i in range(n):
             yield gen_case(rng, i)
 
@@ -294,6 +316,8 @@ class C08(common.Prop):
         cw = set(case["conf"])
         cls = ("neg" if any(w >> 31 and (w & 0x7FFFFFFF) not in (0,) and (w & 0x7FFFFFFF) <= 0x7F800000 for w in cw) else "") + \
               ("nan" if any((w & 0x7FFFFFFF) > 0x7F800000 for w in cw) else "") + ("z" if any((w & 0x7FFFFFFF) == 0 for w in cw) else "")
+        if case.get("enum"):
+            return ("enum", case["enum"], len(case["ops"]))
         return ("D%d" % D, "empty" if F * P * T == 0 else "full", (cls or "pos") + ("+subn" if case_edge(case) else ""), "win" if case.get("args") else "all",
                 ",".join(sorted({o[0][:6] + ("!" + op_edge(case, o)[:5] if op_edge(case, o) else "") for o in case["ops"]}))[:60])
 
@@ -385,7 +409,6 @@ class C08(common.Prop):
                 ops.append([7])
             elif k == "flatten":
                 ops.append([8])
-        comps = case["comps"]
         return [self.cfg, list(encode_file(case)), pg.args_tree(case.get("args")), ops]
 
     @staticmethod
@@ -670,7 +693,7 @@ class C08(common.Prop):
         st, bk, D = failure.get("stage"), failure.get("backend"), failure.get("D")
         what = failure.get("what", "")
         if st in ("read", "convert"):
-            if bk == "tensorflow" and D != 2 and "valid differs" in what:
+            if bk == "tensorflow" and D != 2 and ("valid differs" in what or "ok vs err" in what):
                 return "tf-mask-stacked-twice"
             if bk in ("torch", "tensorflow") and failure.get("odd_conf") and "valid differs" in what:
                 return "validity-rule-negative-or-nan-confidence"
